@@ -2,7 +2,7 @@ import RimeModel.Basic.Hex
 import RimeModel.C07.Translation
 /-! line protocol for C07 (see checks/C07.py).
   table / nsyl n / syl id hex / e index extra texthex f32bits / endtable
-  cfg <script|table> <completion> <delims hex>
+  cfg <script|table> <completion> <delims hex> <enable_sentence> / cps <start> <len> <sylls> (table)
   in hex / g interp inputlen edgeStarts / gi start syll end type credbits / sent type start end texthex /
   pv len sylls / px len sylls / go
 → lk p / L end texthex code matching remaining m e / c type start end texthex / endin
@@ -36,6 +36,8 @@ structure St where
   table : Table := { head := [] }
   kind : String := "script"
   completion : Bool := false
+  enableSentence : Bool := false
+  cps : List (Nat × PrismKey) := []     -- reversed
   delims : Bytes := []
   input : Bytes := []
   interp : Nat := 0
@@ -88,7 +90,10 @@ def runInput (st : St) (out : IO.FS.Stream) : IO Unit := do
     for c in distinct [] (scriptTranslation st.table g 0 st.inputLen st.completion st.sentence) do
       out.putStrLn (showCand c)
   else
-    for c in distinct [] (tableTranslation st.table st.syllabary st.delims st.input 0 st.completion st.exactKey st.expansion.reverse) do
+    let cpsAll := st.cps.reverse
+    let cps := fun (s : Nat) => (cpsAll.filter (fun kv => kv.1 == s)).map (·.2)
+    for c in distinct [] (tableQuery st.table st.syllabary st.delims st.input 0 st.completion st.enableSentence st.exactKey
+                            st.expansion.reverse cps st.sentence) do
       out.putStrLn (showCand c)
   out.putStrLn "endin"
 
@@ -104,10 +109,11 @@ partial def loop (h : IO.FS.Stream) (out : IO.FS.Stream) (st : St) : IO Unit := 
   | ["endtable"] =>
     out.putStrLn s!"table {st.syllabary.length} {st.rows.length}"
     loop h out { st with table := build id st.syllabary.length st.rows.reverse }
-  | ["cfg", kind, comp, delims] =>
-    loop h out { st with kind := kind, completion := comp == "1", delims := (Hex.decode delims).getD [] }
+  | ["cfg", kind, comp, delims, sen] =>
+    loop h out { st with kind := kind, completion := comp == "1", delims := (Hex.decode delims).getD [], enableSentence := sen == "1" }
+  | ["cps", s, len, sy] => loop h out { st with cps := (s.toNat!, { length := len.toNat!, sylls := parseSylls sy }) :: st.cps }
   | ["in", hx] =>
-    loop h out { st with input := (Hex.decode hx).getD [], gi := [], sentence := none, exactKey := none, expansion := [],
+    loop h out { st with input := (Hex.decode hx).getD [], gi := [], sentence := none, exactKey := none, expansion := [], cps := [],
                          interp := 0, inputLen := 0, edgeStarts := 0 }
   | ["g", a, b, c] => loop h out { st with interp := a.toNat!, inputLen := b.toNat!, edgeStarts := c.toNat! }
   | ["gi", s, y, e, ty, cr] =>
